@@ -42,7 +42,7 @@ def run(ctx):
 
     def mc():
         try:
-            box['mc'] = ctx.tlc('Tenant', f'Tenant.MC_{tier}.cfg', timeout=1200, coverage=True, workers=6, tag='mc')
+            box['mc'] = ctx.tlc('Tenant', f'Tenant.MC_{tier}.cfg', timeout=1200, coverage=True, workers=max(1, vlib.NCPU // 2), tag='mc')
         except Exception as e:  # noqa
             box['mc_err'] = e
 
@@ -51,11 +51,12 @@ def run(ctx):
             box['bin'] = ctx.go_build('tenant')
         except Exception as e:  # noqa
             box['bin_err'] = e
-    th = [threading.Thread(target=mc), threading.Thread(target=build)]
+    build()   # first, alone: the Go build is itself parallel
+    th = [threading.Thread(target=mc)]   # model checking runs beside behaviour generation, each with half of the workers
     for t in th:
         t.start()
     # all histories up to the bound (hist is part of the fingerprint in the Gen configs)
-    g = ctx.tlc_must_pass('Tenant', f'Tenant.Gen_{tier}.cfg', timeout=1500, dump=True, workers=8, tag='gen')
+    g = ctx.tlc_must_pass('Tenant', f'Tenant.Gen_{tier}.cfg', timeout=1500, dump=True, workers=max(1, vlib.NCPU // 2), tag='gen')
     cases = []
     maxlen = 0
     for st in ctx.dump_states(g):
@@ -76,17 +77,17 @@ def run(ctx):
     for st in extra:
         for nv in range(NVARIANTS):
             jobs.append(with_nv(st, nv))
+    # longer histories: random behaviours of a deeper configuration, each replayed with its final tables
     nsim = 0
-    if tier == 'thorough':
-        # longer histories: random behaviours of the bigger configuration, each replayed state by state
-        s = ctx.tlc('Tenant', 'Tenant.Sim_thorough.cfg', timeout=900, simulate={'num': 30000}, depth=8, workers=8, tag='sim')
-        if s.timed_out or not s.ok:
-            raise vlib.Inconclusive('Tenant simulate run failed: ' + s.stdout[-1500:])
-        for b in ctx.sim_behaviours(s):
-            st = b[-1]
-            if st['hist']:
-                jobs.append(with_nv(case_of(st), ctx.rng.randrange(NVARIANTS)))
-                nsim += 1
+    s = ctx.tlc('Tenant', f'Tenant.Sim_{tier}.cfg', timeout=900, simulate={'num': 5000 if tier == 'quick' else 30000},
+                depth=7 if tier == 'quick' else 8, workers=vlib.NCPU, tag='sim')
+    if s.timed_out or not s.ok:
+        raise vlib.Inconclusive('Tenant simulate run failed: ' + s.stdout[-1500:])
+    for b in ctx.sim_behaviours(s):
+        st = b[-1]
+        if st['hist']:
+            jobs.append(with_nv(case_of(st), ctx.rng.randrange(NVARIANTS)))
+            nsim += 1
     for t in th:
         t.join()
     if 'mc_err' in box:
@@ -100,7 +101,7 @@ def run(ctx):
     jpath = ctx.tmp('jobs.ndjson')
     with open(jpath, 'w') as f:
         f.writelines(jobs)
-    res, lines = ctx.replay(box['bin'], jpath, timeout=1500, procs=16)
+    res, lines = ctx.replay(box['bin'], jpath, timeout=1500, procs=vlib.NCPU)
     ctx.absorb(res, lines)
     ctx.exhaustive = exhaustive
     ctx.extra_cov['histories_total'] = total
@@ -109,8 +110,8 @@ def run(ctx):
     ctx.extra_cov['cases_with_all_name_variants'] = len(extra)
     ctx.extra_cov['simulated_long_histories'] = nsim
     ctx.rule = ('every TLC history (every prefix is its own case) of create/rename/delete of organizations, buckets and users and '
-                'membership creation over the 2-name domain {n1,n2} plus the reserved name _tasks, up to the bound of the Gen config '
-                '(sampled by seed only when above the budget); each history runs under a seed-chosen concretisation of the two names '
+                'membership creation/removal over the 2-name domain {n1,n2} plus the reserved name _tasks, up to the bound of the Gen config '
+                '(sampled by seed only when above the budget), plus TLC-simulated longer histories; each history runs under a seed-chosen concretisation of the two names '
                 '(plain, prefix of each other, inner spaces, non-ascii/case, surrounding whitespace, slash) and a seed-chosen part under '
                 'all six; non-trivial = the history contains a refused operation or a successful rename/delete; distinct = distinct '
                 '(operation sequence, final tables)')
